@@ -2,6 +2,7 @@ package durablestream
 
 import (
 	"context"
+	"strconv"
 	"time"
 
 	eventbus "github.com/jilio/ebu"
@@ -120,4 +121,36 @@ func harnessC11DurableReplay() {
 		vAssertK(got == n, "nil-implies-complete", "KF-C11-durable-limit-skips", b > 0)
 		vCover("nil-complete")
 	}
+}
+
+//verif:entry property=C11 tier=both bounds="bus.Replay over the durable-streams store with a longer log (11 or 12 events in one server response, so that the per-event offsets pass a decimal width change), default or large batch size, lenient server, no fault: every event delivered once, in order" cover="long-complete" conformance=off
+func harnessC11DurableReplayLong() {
+	vmDSChunked, vmDSStrict = false, false
+	st, err := New(vdsServer("c11-long"), "s")
+	vAssert(err == nil, "store-opens")
+	n := 10 + vInt(1, 2)
+	recs := make([]dsRec, 0, n)
+	for i := 0; i < n; i++ {
+		r := dsRec{typ: "t", data: []byte(strconv.Itoa(100 + i)), ts: time.Unix(int64(1000+i), 0).UTC()}
+		_, aerr := st.Append(bg, &eventbus.Event{Type: r.typ, Data: r.data, Timestamp: r.ts})
+		vAssert(aerr == nil, "append-ok")
+		recs = append(recs, r)
+	}
+	b := 0
+	if vBool() {
+		b = 100
+	}
+	bus := eventbus.New(eventbus.WithStore(st), eventbus.WithReplayBatchSize(b))
+	got, inOrder := 0, true
+	rerr := bus.Replay(bg, eventbus.OffsetOldest, func(e *eventbus.StoredEvent) error {
+		if got >= n || !dsSame(e, recs[got]) {
+			inOrder = false
+		}
+		got++
+		return nil
+	})
+	vAssert(rerr == nil, "no-fault-no-error")
+	vAssert(inOrder, "gap-free-prefix-in-order")
+	vAssert(got == n, "nil-implies-complete")
+	vCover("long-complete")
 }
